@@ -24,7 +24,14 @@ ASSUMPTIONS = [
     "'calls run in nondecreasing scheduled time' is decided as: when a call runs no other pending call is "
     "scheduled strictly earlier (a call moved before an already-run call cannot run before it)",
 ]
-MIN = {"quick": {"states": 1, "nontrivial": 1, "outcomes": 1}}
+MIN = {"quick": {"states": 470000, "nontrivial": 470000, "outcomes": 14},
+       "thorough": {"states": 470000, "nontrivial": 470000, "outcomes": 14}}
+
+LEVEL_TEXT = ("every history of the alphabet up to the depth bound is executed on a real task.Clock and every run "
+              "event and getDelayedCalls() is compared with a dict-of-times reference; a pass means no such history "
+              "runs a call early, late, twice, after cancellation, before an earlier pending call or out of "
+              "creation order among same-time never-rescheduled calls")
+LEVEL_NOTE = "bounded: integer times, <= 4 live user calls, one-step scripts, depth 4..6; functions do not raise"
 
 # families (depth, max scripted calls per history) explored per tier
 FAMILIES = {"quick": [(5, 1), (4, 2)], "thorough": [(6, 1), (5, 2)]}
